@@ -181,7 +181,11 @@ func PreferredGoType(dt datatype.DataType) (reflect.Type, error) {
 		if err != nil {
 			return nil, err
 		}
-		return reflect.MapOf(ensureNillable(keyType), ensureNillable(valueType)), nil
+		if keyType = ensureNillable(keyType); !keyType.Comparable() {
+			// e.g. blob, inet or collection keys: no Go map type can hold them
+			return nil, errCannotFindGoType(dt)
+		}
+		return reflect.MapOf(keyType, ensureNillable(valueType)), nil
 	}
 	return nil, errCannotFindGoType(dt)
 }
